@@ -1,15 +1,39 @@
 import Rare.Proofs.C13Main
 import Rare.Proofs.C13Algo
+import Rare.Proofs.C13Real
+import Rare.Proofs.F64Parse
 import Rare.Gen.C13
 /-!
 # C13 – Output ordering is a deterministic function of the aggregated data
 
 Model: `Rare/Model/C13.lean` (the sorters of `pkg/aggregation/sorting` and `cmd/helpers/sorting.go`
-after the two `fix:` commits for F18 and the calendar/instant ties).  Library calls
-(`strings.ToLower`, `strconv.ParseFloat`, `dateparse.ParseFormat`, `time.Parse`) are the fields of
-`Oracle`, universally quantified.  `sort.Sort` is any comparison-based algorithm (`Algo`) satisfying
-`SortContract` (assumption: it compares only elements of its input and returns a sorted
-permutation when `less` is a strict order on the distinct elements).
+after the two `fix:` commits for F18 and the calendar/instant ties), parametric in the library calls
+(`Oracle`: `strings.ToLower`, `strconv.ParseFloat`, `dateparse.ParseFormat`, `time.Parse`); every
+theorem stated for `o : Oracle` holds for every behaviour of these calls.  On top of it
+
+* `Rare/Model/C13Num.lean`: `strconv.ParseFloat` IS modelled (`F64.parseFloat`, software binary64) –
+  `byNameSmartF` mirrors `ByNameSmart` with it, `realNum`/`numVal` say what a key denotes.  Theorems
+  `numeric_real_*`, `numeric_orders_by_magnitude`, `numeric_equal_values_by_text`, … are about the
+  real semantics, for all byte strings.
+* `Rare/Model/C13Lower.lean`: `strings.ToLower` IS modelled (`goToLower tl`: ASCII fast path +
+  `strings.Map(unicode.ToLower, ·)` over Go's UTF-8 decoding), parametric only in the rune table
+  `tl = unicode.ToLower`, of which `RuneLower` is assumed and re-checked against the toolchain on every
+  run (`rune_lower_from_source`, harness op `lowtab`).  `contextual_table_lookup` is exact for all
+  byte strings.
+* `dateparse.ParseFormat` / `time.Parse` remain oracles (`DateLib`), universally quantified.
+
+`sort.Sort` is NOT modelled.  It is any comparison-based algorithm (`Algo`, a decision tree asking
+`less a b`) that satisfies the contract `SortContract` (`Rare/Spec/C13.lean`), stated once:
+
+    within : it only compares elements of its input;
+    sorted : on distinct elements, if `less` is asymmetric, total and transitive on them (`OrderOn`),
+             the result is a permutation of the input that is pairwise sorted w.r.t. `less`.
+
+Theorems that USE the contract (hypothesis `hc : SortContract alg`): `perm_invariant`,
+`perm_invariant_partial`, `reverse_every_permutation`, `reverse_every_permutation_partial` (and
+`sort_result` in `Proofs/C13Main.lean`).  All other theorems are about the comparators themselves
+or about the reference sort `isort`.  `sort_contract_satisfiable` discharges the contract for a
+verified insertion sort (`isortA`); nothing is claimed about Go's pdqsort beyond the contract.
 
 Full statement wanted for `contextual` / `date`:
   for EVERY key set, every permutation sorts to the same sequence
@@ -237,7 +261,7 @@ def asKeys (table : List (String × Nat)) : SortSet := table.map (fun e => (asc 
 position (Sunday = 0 … Saturday = 6, January = 0 … December = 11). -/
 theorem contextual_calendar :
     calendarTable Gen.C13.weekdays weekdayNames = true ∧ calendarTable Gen.C13.months monthNames = true := by
-  decide
+  decide +kernel
 
 /-- The hand-written tables of the model are the generated ones (same finite maps, same order of
 `sortSets`), and the two tables share no key. -/
@@ -246,7 +270,7 @@ theorem tables_match_source :
     ∧ (∀ e ∈ Gen.C13.months, months.get (asc e.1) = some e.2) ∧ Gen.C13.months.length = months.length
     ∧ Gen.C13.sortSets = [Gen.C13.weekdays, Gen.C13.months] ∧ sortSets = [weekdays, months]
     ∧ (∀ e ∈ Gen.C13.weekdays, months.get (asc e.1) = none) := by
-  decide
+  decide +kernel
 
 /-- The closure, fresh, on any two generated weekday (month) spellings: earlier calendar position first. -/
 theorem contextual_orders_by_calendar :
@@ -254,7 +278,7 @@ theorem contextual_orders_by_calendar :
       (byContextual witnessOracle sortSets ({}, ()) (asc e1.1) (asc e2.1)).1 = true)
     ∧ (∀ e1 ∈ Gen.C13.months, ∀ e2 ∈ Gen.C13.months, e1.2 < e2.2 →
       (byContextual witnessOracle sortSets ({}, ()) (asc e1.1) (asc e2.1)).1 = true) := by
-  decide
+  decide +kernel
 
 /-- In general: two keys of the inferred table are ordered by position, then by text. -/
 theorem contextual_calendar_step (o : Oracle) (sets : List SortSet) (set : SortSet) (a b : Key) (i j : Nat)
@@ -308,7 +332,7 @@ theorem modifier_table :
     (sortNames.all fun n => modifierExpect.all fun me =>
       parsed (parseSort asciiLower (asc n ++ asc me.1))
         == (me.2 (n == "value")).map (fun r => (asc n, r))) = true := by
-  decide
+  decide +kernel
 
 def modeOfReturn (stmt : String) : Option Mode :=
   if stmt = "return sorting.ValueNilSorter(sorting.ByName), nil" then some .text
@@ -328,7 +352,323 @@ theorem switches_match_source :
         [(["rev", "reverse"], "reverse = !reverse"), (["desc"], "reverse = true"), (["asc"], "reverse = false"),
          (["<default>"], "return \"\", false, errors.New(\"invalid sort modifier\")")]
     ∧ Gen.C13.reverseDefault = "(realname == \"value\")" := by
+  decide +kernel
+
+/-! ## `numeric` over the REAL `strconv.ParseFloat` (software binary64, `Rare/Base/F64Str.lean`)
+
+`byNameSmartF` mirrors `ByNameSmart` with `F64.parseFloat`, `F64.eq`, `F64.lt`; `numVal k` is what
+the key denotes: not a number (syntax error, range error such as `1e400`, NaN), `-Inf`, an exact
+rational (the value of the nearest float64), `+Inf`. -/
+
+/-- The Go-shaped comparator is the parametric model at the real `ParseFloat`. -/
+theorem numeric_real_is_model : byNameSmartF = byNameSmart realNum :=
+  funext fun a => funext fun b => byNameSmartF_eq a b
+
+/-- `numeric`, real `ParseFloat`: a strict total order on ALL byte strings – irreflexive, transitive,
+and any two distinct keys (`1`/`1.0`/`1e0`/`+1`, `-0`/`0`, NaN and Inf spellings, hex floats,
+underscores, text) are ordered one way or the other. -/
+theorem numeric_real_strict_total : StrictTotalOn (fun _ => True) byNameSmartF := by
+  rw [numeric_real_is_model]
+  exact numeric_less_strict_total realNum
+
+/-- **`numeric` orders numbers by magnitude**: if both keys parse and their exact values differ,
+the smaller value comes first (`-Inf` < every finite value < `+Inf`), whatever the spellings. -/
+theorem numeric_orders_by_magnitude (a b : Key) (h : NumVal.lt (numVal a) (numVal b)) :
+    byNameSmartF a b = true ∧ byNameSmartF b a = false := by
+  obtain ⟨p, q, hp, hq, hpq⟩ := (numVal_lt_iff a b).mp h
+  rw [numeric_real_is_model]
+  cases ha : realNum a <;> rw [ha] at hp <;> simp [PF.mag] at hp
+  cases hb : realNum b <;> rw [hb] at hq <;> simp [PF.mag] at hq
+  subst hp; subst hq
+  exact numeric_by_magnitude realNum a b _ _ ha hb hpq
+
+/-- Equal exact values (two spellings of one number, `-0` and `0`, the same infinity) and two
+non-numbers are ordered by text – that is what keeps the order strict and total. -/
+theorem numeric_equal_values_by_text (a b : Key) (h : numVal a = numVal b) :
+    byNameSmartF a b = bytesLt a b := by
+  rw [numeric_real_is_model]
+  exact numeric_ties_by_text realNum a b ((numVal_eq_iff a b).mp h)
+
+/-- Every number (incl. `±Inf`) sorts before every non-number (text, NaN, out-of-range spellings). -/
+theorem numeric_numbers_before_text (a b : Key) (ha : (numVal a).isNum = true) (hb : numVal b = .notNum) :
+    byNameSmartF a b = true ∧ byNameSmartF b a = false := by
+  rw [numeric_real_is_model]
+  have hb' := (numVal_notNum_iff b).mp hb
+  have ha' : (realNum a).mag ≠ none := by
+    intro h
+    rw [(numVal_notNum_iff a).mpr h] at ha
+    cases ha
+  cases hna : realNum a with
+  | val x =>
+    refine numeric_numbers_first realNum a b x hna ?_
+    cases hnb : realNum b <;> rw [hnb] at hb' <;> simp [PF.mag, PF.isNum] at hb' ⊢
+  | err => rw [hna] at ha'; exact absurd rfl ha'
+  | nan => rw [hna] at ha'; exact absurd rfl ha'
+
+/-- Decimal integer spellings (what `strconv.Atoi` accepts, `|n| ≤ 2^53`) are ordered as integers. -/
+theorem numeric_orders_integers (a b : Key) (m n : Int) (ha : atoi a = some m) (hb : atoi b = some n)
+    (hm : m.natAbs ≤ 9007199254740992) (hn : n.natAbs ≤ 9007199254740992) (hmn : m < n) :
+    byNameSmartF a b = true ∧ byNameSmartF b a = false := by
+  apply numeric_orders_by_magnitude
+  obtain ⟨x, hx, hxr⟩ := F64.parseFloat_of_atoi_small ha hm
+  obtain ⟨y, hy, hyr⟩ := F64.parseFloat_of_atoi_small hb hn
+  have fin : ∀ (z : F64) (q : Rat), z.toRat? = some q → numValOf z = .fin q := by
+    intro z q hz
+    unfold F64.toRat? at hz
+    split at hz
+    · rename_i hf
+      cases hz
+      have hn := F64.not_nan_of_finite hf
+      have hi := F64.not_inf_of_finite hf
+      simp [numValOf, hn, hi]
+    · cases hz
+  simp only [numVal, hx, hy, fin x _ hxr, fin y _ hyr, NumVal.lt]
+  exact Rat.intCast_lt_intCast.mpr hmn
+
+/-- The spellings the property names, evaluated by the model of `ParseFloat` (kernel computation):
+one value in five spellings, signed zero, NaN / Inf spellings (case-insensitive, `+nan` is not one),
+range errors are NOT numbers, hex floats need a `p` exponent, underscores only between digits. -/
+theorem numeric_spellings :
+    numVal (asc "1") = numVal (asc "1.0") ∧ numVal (asc "1") = numVal (asc "1e0")
+    ∧ numVal (asc "1") = numVal (asc "+1") ∧ numVal (asc "1") = numVal (asc "0x1p0")
+    ∧ numVal (asc "1") = numVal (asc "01") ∧ (numVal (asc "1")).isNum = true
+    ∧ numVal (asc "-0") = numVal (asc "0") ∧ numVal (asc "1e-400") = numVal (asc "0")
+    ∧ numVal (asc "nan") = .notNum ∧ numVal (asc "NaN") = .notNum ∧ numVal (asc "+nan") = .notNum
+    ∧ numVal (asc "inf") = .posInf ∧ numVal (asc "+Inf") = .posInf ∧ numVal (asc "iNfInItY") = .posInf
+    ∧ numVal (asc "-inf") = .negInf ∧ numVal (asc "infin") = .notNum
+    ∧ numVal (asc "1e400") = .notNum ∧ numVal (asc "-1e400") = .notNum
+    ∧ numVal (asc "0x1p4") = numVal (asc "16") ∧ numVal (asc "0x10") = .notNum
+    ∧ numVal (asc "1_000") = numVal (asc "1000") ∧ numVal (asc "1__0") = .notNum ∧ numVal (asc "_1") = .notNum
+    ∧ numVal (asc ".5") = numVal (asc "0.5") ∧ numVal (asc "5.") = numVal (asc "5") ∧ numVal (asc ".") = .notNum
+    ∧ numVal (asc "") = .notNum ∧ numVal (asc "1a") = .notNum ∧ numVal (asc " 1") = .notNum := by
+  decide +kernel
+
+example : NumVal.lt (numVal (asc "-inf")) (numVal (asc "-1.5")) ∧ NumVal.lt (numVal (asc "9")) (numVal (asc "1e1"))
+    ∧ NumVal.lt (numVal (asc "0x1p4")) (numVal (asc "+Inf")) := by
+  decide +kernel
+
+example : atoi (asc "-20") = some (-20) ∧ atoi (asc "+007") = some 7 := by decide +kernel
+
+/-- `numeric` on a key set with every kind of spelling: every arrival order gives the same sequence
+(numbers by magnitude, the tie `-0`/`0` and `16`/`0x1p4` by text, then the non-numbers by text). -/
+example :
+    isort byNameSmartF [asc "nan", asc "inf", asc "-inf", asc "1e400", asc "0x1p4", asc "16", asc "0", asc "-0", asc "abc", asc "2"]
+      = [asc "-inf", asc "-0", asc "0", asc "2", asc "0x1p4", asc "16", asc "inf", asc "1e400", asc "abc", asc "nan"]
+    ∧ isort byNameSmartF [asc "2", asc "abc", asc "-0", asc "0", asc "16", asc "0x1p4", asc "1e400", asc "-inf", asc "inf", asc "nan"]
+      = [asc "-inf", asc "-0", asc "0", asc "2", asc "0x1p4", asc "16", asc "inf", asc "1e400", asc "abc", asc "nan"] := by
+  decide +kernel
+
+/-! ## `strings.ToLower` as the sorters use it (contextual / date keys, sort names)
+
+`goToLower tl` mirrors `strings.ToLower` with `unicode.ToLower = tl`; `RuneLower tl` is all that is
+assumed of the rune table, and it is regenerated from the Go toolchain on every run. -/
+
+/-- The assumed facts about `unicode.ToLower`, enumerated over all code points by the translator:
+only U+0130 (`İ` ↦ `i`) and U+212A (KELVIN SIGN ↦ `k`) lower-case into ASCII; ASCII is `A-Z ↦ a-z`.
+The contract is satisfiable (`tlMin`). -/
+theorem rune_lower_from_source :
+    Gen.C13.lowerIntoAscii = [(0x130, 0x69), (0x212A, 0x6B)] ∧ Gen.C13.lowerAsciiExact = true
+    ∧ Gen.C13.lowerIdempotent = true ∧ RuneLower tlMin := by
+  refine ⟨by decide, by decide, by decide, ?_⟩
+  refine ⟨?_, by decide, by decide, ?_⟩
+  · intro r hr; simp [tlMin, hr]
+  · intro r hr h1 h2
+    have : ¬ r < 128 := by omega
+    simp [tlMin, this, h1, h2]; omega
+
+/-- ASCII keys: `strings.ToLower` is exactly the byte-wise `A-Z ↦ a-z` (no assumption on `tl`). -/
+theorem to_lower_ascii_exact (tl : Nat → Nat) (k : Key) (hk : k.all (fun c => c < 128) = true) :
+    goToLower tl k = asciiLower k := by
+  unfold goToLower
+  simp only [hk, if_true]
+  have e : asciiLower k = k.map lowerB := rfl
+  cases hu : k.any (fun c => 65 ≤ c ∧ c ≤ 90) with
+  | false => simp [e, map_lowerB_noUpper k hu]
+  | true => simp [e]
+
+/-- ALL byte strings: comparing `strings.ToLower(k)` with an ASCII constant `c` (a table key, a
+`switch` label) is comparing `lowerK k` with it. -/
+theorem to_lower_lookup (tl : Nat → Nat) (h : RuneLower tl) (k c : Key) (hc : c.all (fun x => x < 128) = true) :
+    goToLower tl k = c ↔ lowerK k = c :=
+  lower_lookup tl h k c hc
+
+/-- the weekday and month tables have ASCII keys only -/
+theorem tables_ascii : AsciiKeys sortSets := by
+  unfold AsciiKeys
+  decide +kernel
+
+/-- **The table look-up of `contextual`, for all byte strings** (`v, ok := set[strings.ToLower(k)]`
+for `set` = weekdays or months): `k` is at position `i` exactly when `foldLower k` – ASCII bytes
+lower-cased, the two-byte sequence `C4 B0` (`İ`) read as `i`, `E2 84 AA` (KELVIN SIGN) as `k`, any
+other non-ASCII byte (other runes, invalid UTF-8) making the key a stranger – is a table key with
+value `i`.  So `FRIDAY`, `Friday`, `frİday` are Friday; `é`, `\xff`, `frıday` (dotless ı) are strangers. -/
+theorem contextual_table_lookup (tl : Nat → Nat) (h : RuneLower tl) (set : SortSet) (hset : set ∈ sortSets)
+    (k : Key) (i : Nat) :
+    set.get (goToLower tl k) = (foldLower k).bind set.get
+    ∧ (set.get (goToLower tl k) = some i ↔ ∃ name, foldLower k = some name ∧ (name, i) ∈ set) := by
+  have hag := lookupAgree_lower tl h sortSets tables_ascii set hset k
+  have hfold : set.get (lowerK k) = (foldLower k).bind set.get := by
+    unfold lowerK
+    cases hf : foldLower k with
+    | some l => rfl
+    | none =>
+      simp only [Option.getD_none, Option.bind_none]
+      -- `k` has a non-ASCII byte, every table key is ASCII
+      unfold SortSet.get
+      rw [List.lookup_eq_none_iff]
+      intro e he
+      simp only [bne_iff_ne, ne_eq]
+      intro hke
+      have hasc := tables_ascii set hset e he
+      rw [← hke] at hasc
+      rw [foldLower_ascii k hasc] at hf
+      cases hf
+  have hnd : ∀ (name : Key) (i : Nat), set.get name = some i ↔ (name, i) ∈ set := by
+    have key : ∀ s ∈ sortSets, (s.map (·.1)).Nodup := by decide +kernel
+    intro name i
+    have nd := key set hset
+    unfold SortSet.get
+    clear hag hfold hset
+    induction set with
+    | nil => simp
+    | cons e rest ih =>
+      rw [List.map_cons, List.nodup_cons] at nd
+      rw [List.lookup_cons]
+      by_cases hne : name = e.1
+      · subst hne
+        simp only [beq_self_eq_true, Option.some.injEq, List.mem_cons]
+        constructor
+        · intro hi; subst hi; exact Or.inl rfl
+        · intro hi
+          rcases hi with hi | hi
+          · rw [← hi]
+          · exact absurd (List.mem_map_of_mem (f := fun x : Key × Nat => x.1) hi) nd.1
+      · have : (name == e.1) = false := by simpa using hne
+        rw [this]
+        simp only [List.mem_cons]
+        constructor
+        · intro hi; exact Or.inr ((ih nd.2).mp hi)
+        · intro hi
+          rcases hi with hi | hi
+          · rw [← hi] at hne; exact absurd rfl hne
+          · exact (ih nd.2).mpr hi
+  refine ⟨hag.trans hfold, ?_⟩
+  rw [hag, hfold]
+  cases hf : foldLower k with
+  | none => simp
+  | some name =>
+    simp only [Option.bind_some, Option.some.injEq, exists_eq_left']
+    exact hnd name i
+
+example : foldLower (asc "FRIDAY") = some (asc "friday") ∧ foldLower [102, 114, 0xC4, 0xB0, 100, 97, 121] = some (asc "friday")
+    ∧ foldLower [0xE2, 0x84, 0xAA] = some (asc "k") ∧ foldLower [102, 114, 0xC4, 0xB1, 100, 97, 121] = none
+    ∧ foldLower [0xC3, 0xA9] = none ∧ foldLower [109, 111, 110, 0xFF] = none
+    ∧ weekdays.get (lowerK [70, 82, 0xC4, 0xB0]) = some 5 ∧ months.get (lowerK [65, 80, 82, 0xC4, 0xB0, 76]) = some 3 := by
+  decide +kernel
+
+/-- The closures rare builds for `contextual` and `date` give the same answers, along every
+comparison sequence, whether they lower-case with `strings.ToLower` (`goOracle tl`) or with the
+look-up equivalent `lowerK` (`realOracle`, what the driver executes). -/
+theorem contextual_lower_irrelevant (tl : Nat → Nat) (h : RuneLower tl) (d : DateLib) {ρ : Type} (alg : Algo Key ρ) :
+    Algo.run (byContextual (goOracle tl d) sortSets) ({}, ()) alg
+      = Algo.run (byContextual (realOracle d) sortSets) ({}, ()) alg
+    ∧ Algo.run (byDateWithContextual (goOracle tl d) sortSets) ({}, {}, ()) alg
+      = Algo.run (byDateWithContextual (realOracle d) sortSets) ({}, {}, ()) alg :=
+  ⟨contextual_lower_run tl h sortSets tables_ascii d alg, date_lower_run tl h sortSets tables_ascii d alg⟩
+
+/-! ## `value`: ties and negative totals; `:asc` / `:desc` / `:reverse` -/
+
+/-- `Reverse` of an order is the order with its arguments swapped – on distinct elements (on equal
+ones Go's `!less(a, a)` is `true`; `sort.Sort` on distinct rows never depends on it). -/
+theorem reverse_is_swap {α : Type} {P : α → Prop} {less : α → α → Bool} (h : OrderOn P less) :
+    (∀ a b, P a → P b → a ≠ b → revLess less a b = less b a) ∧ OrderOn P (revLess less) :=
+  ⟨h.rev_eq, h.rev⟩
+
+/-- `--sort value` (default, = `value:desc`) on two distinct rows: the larger total first (totals
+are signed: `-3` sorts after `0`), equal totals by name in DESCENDING text order (the whole
+`value:asc` order is reversed, ties included). -/
+theorem value_default_less (a b : NV) (hne : a ≠ b) :
+    (reverse (valueSorterEx (pureCmp byName)) () a b).1 = true
+      ↔ (b.value < a.value ∨ (a.value = b.value ∧ bytesLt b.name a.name = true)) := by
+  have e : (reverse (valueSorterEx (pureCmp byName)) () a b).1 = revLess valueLess a b := by
+    simp [Rare.C13.reverse, valueSorterEx_byName, revLess]
+  have ho : OrderOn (fun _ : NV => True) valueLess := valueLess_strictTotal.toOrderOn
+  rw [e, ho.rev_eq a b trivial trivial hne]
+  simp only [valueLess, byRank, lexLt, intLt, Bool.or_eq_true, decide_eq_true_eq, Bool.and_eq_true]
+  constructor
+  · rintro (h | ⟨h1, h2⟩)
+    · exact Or.inl h
+    · exact Or.inr ⟨h1.symm, h2⟩
+  · rintro (h | ⟨h1, h2⟩)
+    · exact Or.inl h
+    · exact Or.inr ⟨h1.symm, h2⟩
+
+/-- … hence in the default arrangement of distinct rows every earlier row has a larger total, or the
+same total and a textually larger name. -/
+theorem value_desc_ties {out items : List NV} (hnd : items.Nodup) (h : IsSorted (revLess valueLess) out items) :
+    out.Pairwise (fun a b => b.value < a.value ∨ (a.value = b.value ∧ bytesLt b.name a.name = true)) := by
+  have hndo : out.Nodup := h.1.nodup_iff.mpr hnd
+  refine (h.2.and hndo).imp ?_
+  intro a b ⟨hab, hne⟩
+  have ho : OrderOn (fun _ : NV => True) valueLess := valueLess_strictTotal.toOrderOn
+  rw [ho.rev_eq a b trivial trivial hne] at hab
+  simp only [valueLess, byRank, lexLt, intLt, Bool.or_eq_true, decide_eq_true_eq, Bool.and_eq_true] at hab
+  rcases hab with h | ⟨h1, h2⟩
+  · exact Or.inl h
+  · exact Or.inr ⟨h1.symm, h2⟩
+
+/-- negative totals, a tie, both directions (reference sort = what `sort.Sort` must return) -/
+example :
+    isort (revLess valueLess) [⟨asc "a", -3⟩, ⟨asc "b", 0⟩, ⟨asc "c", 5⟩, ⟨asc "d", 0⟩, ⟨asc "e", -3⟩]
+      = [⟨asc "c", 5⟩, ⟨asc "d", 0⟩, ⟨asc "b", 0⟩, ⟨asc "e", -3⟩, ⟨asc "a", -3⟩]
+    ∧ isort valueLess [⟨asc "a", -3⟩, ⟨asc "b", 0⟩, ⟨asc "c", 5⟩, ⟨asc "d", 0⟩, ⟨asc "e", -3⟩]
+      = [⟨asc "a", -3⟩, ⟨asc "e", -3⟩, ⟨asc "b", 0⟩, ⟨asc "d", 0⟩, ⟨asc "c", 5⟩] := by
   decide
+
+/-- **Reversing reverses, for every permutation**: whatever order the rows arrive in, `sort.Sort`
+(any algorithm meeting `SortContract`) with the reversed closure returns exactly the reverse of what
+it returns with the forward closure (`mode:desc` vs `mode:asc`, `mode:reverse` vs `mode`). -/
+theorem reverse_every_permutation (o : Oracle) (sets : List SortSet) (m : Mode)
+    (hm : m = .text ∨ m = .numeric ∨ m = .value)
+    (alg : List NV → Algo NV (List NV)) (hc : SortContract alg)
+    (items a1 a2 : List NV) (hnd : (items.map (·.name)).Nodup) (h1 : a1.Perm items) (h2 : a2.Perm items) :
+    (Algo.run (finalSorter o sets m true).cmp (finalSorter o sets m true).init (alg a1)).1
+      = ((Algo.run (finalSorter o sets m false).cmp (finalSorter o sets m false).init (alg a2)).1).reverse := by
+  have hu : modeUniform o sets m (items.map (·.name)) = true := by
+    rcases hm with h | h | h <;> subst h <;> rfl
+  rw [sort_result o sets m true alg hc items a1 hnd h1 hu, sort_result o sets m false alg hc items a2 hnd h2 hu]
+  exact reverse_result (nodup_of_nodup_map _ items hnd) (modeSpec_orderOn o sets m items hnd)
+
+/-- The same for all five modes under the uniformity hypothesis of the stateful closures (F19). -/
+theorem reverse_every_permutation_partial (o : Oracle) (sets : List SortSet) (m : Mode)
+    (alg : List NV → Algo NV (List NV)) (hc : SortContract alg)
+    (items a1 a2 : List NV) (hnd : (items.map (·.name)).Nodup) (h1 : a1.Perm items) (h2 : a2.Perm items)
+    (hu : modeUniform o sets m (items.map (·.name)) = true) :
+    (Algo.run (finalSorter o sets m true).cmp (finalSorter o sets m true).init (alg a1)).1
+      = ((Algo.run (finalSorter o sets m false).cmp (finalSorter o sets m false).init (alg a2)).1).reverse := by
+  rw [sort_result o sets m true alg hc items a1 hnd h1 hu, sort_result o sets m false alg hc items a2 hnd h2 hu]
+  exact reverse_result (nodup_of_nodup_map _ items hnd) (modeSpec_orderOn o sets m items hnd)
+
+/-- `numeric:desc` of three rows from one arrival order = reverse of `numeric` from another -/
+example (d : DateLib) :
+    (Algo.run (finalSorter (realOracle d) sortSets .numeric true).cmp (finalSorter (realOracle d) sortSets .numeric true).init
+        (isortA [⟨asc "10", 1⟩, ⟨asc "1a", 2⟩, ⟨asc "2", 3⟩])).1
+    = ((Algo.run (finalSorter (realOracle d) sortSets .numeric false).cmp (finalSorter (realOracle d) sortSets .numeric false).init
+        (isortA [⟨asc "2", 3⟩, ⟨asc "10", 1⟩, ⟨asc "1a", 2⟩])).1).reverse :=
+  reverse_every_permutation _ sortSets .numeric (Or.inr (Or.inl rfl)) isortA isortA_contract
+    [⟨asc "10", 1⟩, ⟨asc "1a", 2⟩, ⟨asc "2", 3⟩] _ _ (by decide) (List.Perm.refl _) (by decide)
+
+/-- Sort names through the modelled `ToLower`: case variants and the `İ` spelling are accepted,
+`value` defaults to descending, a non-ASCII stranger is an unknown sort. -/
+theorem sort_name_spellings :
+    parsed (parseSort lowerK (asc "NUMERIC:DESC")) = some (asc "numeric", true)
+    ∧ parsed (parseSort lowerK (asc "Value")) = some (asc "value", true)
+    ∧ parsed (parseSort lowerK (asc "value:Reverse")) = some (asc "value", false)
+    ∧ parsed (parseSort lowerK ([110, 117, 109, 101, 114, 0xC4, 0xB0, 99] ++ asc ":rev")) = some (asc "numeric", true)
+    ∧ lookupMode lowerK [110, 117, 109, 101, 114, 0xC4, 0xB0, 99] = some .numeric
+    ∧ lookupMode lowerK [118, 97, 108, 117, 0xC3, 0xA9] = none
+    ∧ lookupMode lowerK (asc "Context") = some .contextual := by
+  decide +kernel
 
 /-! ## non-vacuity -/
 
